@@ -84,7 +84,7 @@ def run(replay=None):
     cap = 60000 if thorough else 14000
     if len(inputs) > cap:
         inputs = rnd.sample(inputs, cap)
-    for fam in ['funs', 'incl', 'quants', 'slots', 'bool1w', 'num1w'] + (['alias', 'cmp11'] if thorough else []):
+    for fam in ['loose', 'funs', 'incl', 'quants', 'slots', 'bool1w', 'num1w'] + (['alias', 'cmp11'] if thorough else []):
         fs, st = grammar.enumerate_family(fam)
         rep.add_tlc(st)
         if not thorough and len(fs) > 500:
